@@ -35,6 +35,7 @@ DEFAULT_KNOBS = {
     "p_while": 0.2, "p_tuple_assign": 0.2, "p_annot": 0.15, "multi_call_sites": 0.0,
     "p_instance_global": 0.2, "p_nested_in_method": 0.3, "p_parent_relative": 0.5,
     "p_dunder_call": 0,     # callable instances; 0 = no random draw at all (opt-in per check)
+    "p_member_named_like_module": 0,   # line 1 of a module binds a global spelled like the module itself
     "p_multi_global": 0,    # `global a, b` (two names in one statement), both rebound
     "p_class_comp": 0,      # class body: list attribute + comprehension over it (first iterable = class scope)
     "p_kw_like_var": 0,     # calls of **kwargs functions pass a keyword spelled like a variable
@@ -576,7 +577,7 @@ class Gen:
         # class attributes (class-body scope: later ones may read earlier ones)
         cctx = base_ctx.copy()
         for _ in range(self.rnd.randint(0, 2)):
-            reuse = [g for g in mod.gvars if g not in taken]
+            reuse = [g for g in mod.gvars if g not in taken and g != mod.dotted.split(".")[-1]]
             if reuse and self.p("p_shadow") and self.k["unique_names"] != 1:
                 a = self.rnd.choice(reuse)       # class attribute spelled like a module global
             else:
@@ -821,10 +822,15 @@ class Gen:
             imported_names |= set(ln) if isinstance(ln, list) else {ln}
         taken = set(imported_names)
         # globals
-        for _ in range(self.rng("n_globals")):
+        for gi in range(self.rng("n_globals")):
             g = self.fresh(VNAMES + ["K", "LIMIT", "total"], taken)
+            like_module = False
+            if gi == 0 and not lines and self.k["p_member_named_like_module"] and self.p("p_member_named_like_module"):
+                # the datetime.datetime layout: line 1 of the module binds a name spelled like the module
+                g = dotted.split(".")[-1]
+                like_module = True
             taken.add(g)
-            if self.p("p_decoy"):
+            if self.p("p_decoy") and not like_module:
                 lines.append(f"# {g} = {rnd.choice(FNAMES)}({rnd.choice(VNAMES)})")
             lines.append(f"{g} = {self.int_expr(ctx, 1)}")
             mod.gvars.append(g)
